@@ -344,11 +344,6 @@ Definition code_of_call (c : call) : N * ((N * N) * (N * N)) :=
   | Del p => (3, (code_of_path p, (0, 0)))
   | _ => (9, ((0, 0), (0, 0)))
   end.
-Definition call_manifest (c : call) : option (N * list N) :=
-  match c with
-  | Put p (CMan m) | PutCreate p (CMan m) => if is_manifest_path p then Some (m_version m, m_refs m) else None
-  | _ => None
-  end.
 Definition published_by (w : list call) : option (N * list N) :=
   (* the manifest the program publishes (content of the publishing call / of the staging file renamed) *)
   match filter (fun c => match c with Put _ (CMan _) | PutCreate _ (CMan _) => true | _ => false end) w with
@@ -376,5 +371,6 @@ Definition chk_prog (i : list ((N * N) * (N * list N)) * (N * ((list bool * (N *
            (map code_of_call (filter mutating w)) (fst o)
   && match published_by w with
      | Some (v, refs) => (v =? fst (snd o)) && list_eqb N.eqb refs (snd (snd o))
-     | None => false
+     | None => (* the model refuses to commit: the implementation published nothing, reported as (0, []) *)
+         (fst (snd o) =? 0) && match snd (snd o) with [] => true | _ => false end
      end.
